@@ -156,3 +156,21 @@ func (v *aArray) emitIndexOf(m *Module, id Value) (insts []wat.Inst) {
 
 	return
 }
+
+// Arrays compare element-wise through their underlying struct: both sides
+// have to be unwrapped, the embedded aStruct only knows the underlying type.
+func (v *aArray) emitEq(r Value) (insts []wat.Inst, ok bool) {
+	d, isArray := r.(*aArray)
+	if !isArray || !v.typ.Equal(r.Type()) {
+		logger.Fatal("v.Type() != r.Type()")
+	}
+	return v.aStruct.emitEq(&d.aStruct)
+}
+
+func (v *aArray) emitCompare(r Value) (insts []wat.Inst) {
+	d, isArray := r.(*aArray)
+	if !isArray || !v.typ.Equal(r.Type()) {
+		logger.Fatal("v.Type() != r.Type()")
+	}
+	return v.aStruct.emitCompare(&d.aStruct)
+}
